@@ -7,7 +7,10 @@ directions, on generated Messages of the common repertoire:
    C mini / C micro       <->  C++                      in harness/wire_h.cpp (parse C++ bytes to same content;
                                                          build with own API -> same bytes; C++ parses them)
    Python message.py      <->  C++                      harness/py_codec.py in a python3 subprocess (extra stage)
-and the 8-byte stream frame of the four gateways.  Scripts use the grammar of checks/c01.py with head `w`.
+and the 8-byte stream frame of the four gateways, in BOTH directions: every case's stream (Message 0, Message 1, Message 0)
+is sent by the C++, mini and micro gateways (byte-identical) and received by each of them through a transport that cuts it
+into arbitrary segments; head `wg` cases steer the frame sizes across the C++ gateway's scratch-buffer size (translated
+constant c_gw_scratch_size) with `pad:R:NAME:SIZE`.  Scripts use the grammar of checks/c01.py with head `w`/`wg`.
 """
 import os, random, struct
 import vlib
@@ -40,6 +43,37 @@ def directed():
     return out
 
 
+def scratch_size():
+    """the C++ gateway's scratch receive buffer size, as translated from iogateway/MessageIOGateway.cpp by this run"""
+    import re
+    try:
+        txt = open(os.path.join(vlib.THEORIES, "Gen", "Consts.v")).read()
+        m = re.search(r"Definition c_gw_scratch_size : N := (\d+)%N", txt)
+        return int(m.group(1)) if m else 2048
+    except OSError:
+        return 2048
+
+
+def gateway_cases(rng, tier):
+    """head `wg`: Messages whose flattened size (the frame's body length) is steered with pad:R:NAME:SIZE across the C++
+    gateway's scratch-buffer boundary; the stream is Message 0, Message 1, Message 0, sent and received by every gateway"""
+    S = scratch_size()
+    zp, hx = c01.hx(b"zpad"), c01.hx
+    sizes = list(range(S - 18, S + 13)) + list(range(2 * S - 16, 2 * S + 17)) + [S - 8 - 1, S - 8, S - 8 + 1, S + 8, 3 * S, 3 * S + 8]
+    out = []
+    for sz in sizes:
+        out.append("wg|a:0:%s:s:%s;a:0:%s:i:07000000;a:0:%s:i:f9ffffff;pad:0:%s:%d" % (hx(b"name"), hx(b"wire-format"), hx(b"c"), hx(b"c"), zp, sz))
+        out.append("wg|pad:1:%s:%d;a:0:%s:b:01;pad:0:%s:%d" % (zp, sz, hx(b"a"), zp, max(40, 3 * S - sz)))
+    for _ in range(60 if tier == "quick" else 1500):
+        ops = [o for o in c01.gen_script(rng, rng.choice([0, 1, 2, 4]), "m", 2).split("|", 1)[1].split(";") if o and not o.startswith(("cp:", "u:"))]
+        near = rng.choice([S - 8, S, 2 * S, S + 8])
+        ops.append("pad:0:%s:%d" % (zp, rng.choice([near + rng.randint(-12, 12), rng.randint(12, 3 * S)])))
+        if rng.random() < 0.5:
+            ops.append("pad:1:%s:%d" % (zp, rng.choice([near + rng.randint(-12, 12), rng.randint(12, 3 * S)])))
+        out.append("wg|" + ";".join(ops))
+    return out
+
+
 class CHECK(vlib.Check):
     prop = "C08"
     prop_file = "Properties_C08.v"
@@ -52,7 +86,9 @@ class CHECK(vlib.Check):
                 "frame; the protocol constants of all implementations (translated from message/Message.h, MiniMessage.c, "
                 "MicroMessage.c, the two C gateways, message.py, message_transceiver_thread.py).  NOT modelled, covered by the "
                 "differential run only: lang/c/minimessage, lang/c/micromessage, lang/python3/message.py (programs quantifier: "
-                "partial) and the receive side of the gateways (C03).")
+                "partial) and the send/receive state machines of the C++, mini and micro gateways (exercised on three-frame streams "
+                "cut into arbitrary segments, frame sizes swept across the scratch-buffer boundary; the C++ receive machine is "
+                "modelled by C03).")
     premises = ["the C mini/micro codecs and the Python codec are compared, not modelled (differential testing on generated Messages)",
                 "common repertoire: field names and strings without NUL; Python additionally needs UTF-8 names/strings and compares "
                 "Point/Rect on non-NaN values only (its struct round trip goes through Python floats)",
@@ -60,7 +96,9 @@ class CHECK(vlib.Check):
     rule = ("operation scripts (checks/c01.py grammar) building Messages over every field type, counts 0/1/2/3.., nesting, raw type "
             "codes, empty strings / zero-length raw items, non-flattenable fields in between; for each: C++ bytes and content vs the "
             "Coq reference spec (byte-identical), C mini and micro parse/build/serialise vs C++, Python parse/build/serialise vs "
-            "C++, the stream frame of the four gateways.  Non-trivial = register 0 receives at least two add/prepend operations.")
+            "C++, the stream frame of the four gateways; every case's three-frame stream is sent by and fed (in segments of 1.."
+            "5000 bytes) to the C++, mini and micro gateways, with a stream of cases whose frame sizes sweep scratch-18..scratch+12, "
+            "2*scratch+-16 and random sizes up to 3*scratch.  Non-trivial = register 0 receives at least two add/prepend/pad operations.")
 
     def gen_cases(self, rng, tier):
         n = 1200 if tier == "quick" else 20000
@@ -68,6 +106,7 @@ class CHECK(vlib.Check):
         for i in range(n):
             nops = rng.choice([2, 4, 6, 9, 12, 16, 24])
             out.append(("random", gen_wire_script(rng, nops, 4 if tier == "quick" else 8)))
+        out += [("gateway-sizes", c) for c in gateway_cases(rng, tier)]
         return out
 
     def signature(self, failure):
@@ -81,7 +120,7 @@ class CHECK(vlib.Check):
 
     def nontrivial(self, case):
         body = case.split("|", 1)[1]
-        return len([o for o in body.split(";") if o[:2] in ("a:", "p:", "am", "pm")]) >= 2
+        return len([o for o in body.split(";") if o[:2] in ("a:", "p:", "am", "pm", "pa")]) >= 2
 
     def distribution(self, sc):
         d = c01.CHECK.distribution(self, sc)
